@@ -18,6 +18,7 @@ import (
 	"sort"
 	"strings"
 	"sync"
+	"time"
 
 	"vh/core"
 	"vh/scen"
@@ -40,15 +41,19 @@ type c13Scen struct {
 type c13Group struct {
 	Name  string
 	Write bool
+	Log   bool
 }
 
 var c13Groups = []c13Group{
-	{"pkgdir-rel", false},  // cwd = package dir, "setup.go"
-	{"modroot-rel", false}, // cwd = module root, "<pkg>/setup.go"
-	{"sibling-rel", false}, // cwd = sibling dir, "../<pkg>/setup.go"
-	{"abs-inside", false},  // absolute path, cwd = another directory of the same module
-	{"abs-outside", false}, // absolute path, cwd = a directory outside the module
-	{"write", true},        // cwd = package dir of a private copy, "setup.go", really writing
+	{"pkgdir-rel", false, false},  // cwd = package dir, "setup.go"
+	{"modroot-rel", false, false}, // cwd = module root, "<pkg>/setup.go"
+	{"sibling-rel", false, false}, // cwd = sibling dir, "../<pkg>/setup.go"
+	{"abs-inside", false, false},  // absolute path, cwd = another directory of the same module
+	{"abs-outside", false, false}, // absolute path, cwd = a directory outside the module
+	{"write", true, false},        // cwd = package dir of a private copy, "setup.go", really writing
+	// really writing with -log; the first and the last process of this group are started at least 1.1 s
+	// apart (different wall-clock seconds), with everything else of the scenario in between
+	{"write-log", true, true},
 }
 
 // spec returns argv[1:], cwd and the spelling of the input path.
@@ -66,6 +71,9 @@ func (g c13Group) spec(root, outside string, sc *c13Scen) (args []string, dir, s
 		spelling, dir = abs, outside
 	default:
 		spelling, dir = base, filepath.Join(root, sc.PkgRel)
+	}
+	if g.Log {
+		return []string{"-log", spelling}, dir, spelling
 	}
 	if g.Write {
 		return []string{spelling}, dir, spelling
@@ -331,17 +339,18 @@ func c13FirstDiffLine(a, b string) string {
 func RunC13(e *core.Env) int {
 	rep := core.NewReport(e, "exploration",
 		"scenarios = seeded broad setups (accepted and rejected), a many-methods/many-converters/many-no-match profile, setups with two converter interfaces, setups with an injected bad notation, "+
-			"and fixed setups whose import table holds two paths with the same last element (blank/named/aliased/duplicated); each scenario is run in N fresh processes (quick 12, thorough 40) over six groups "+
-			"(package dir + relative path, module root + relative path, sibling dir + ../ path, absolute path from inside the module, absolute path from outside the module, really writing runs on private copies) "+
+			"and fixed setups whose import table holds two paths with the same last element (blank/named/aliased/duplicated); each scenario is run in N fresh processes (quick 12, thorough 40) over seven groups "+
+			"(package dir + relative path, module root + relative path, sibling dir + ../ path, absolute path from inside the module, absolute path from outside the module, really writing runs on private copies, "+
+			"really writing runs with -log whose first and last process are started in different wall-clock seconds) "+
 			"with HOME, TMPDIR, LANG, TZ, GOMAXPROCS and unrelated variables varied, a third of the scenarios with all processes started concurrently. "+
 			"A case is (scenario, group); it is counted distinct/non-trivial by (hash of the scenario sources, group) when at least two tuples were actually compared for it (within the group or against the reference group) and the run produced either generated functions or diagnostics")
 	rep.Assume("the Go settings of Env.ToolEnv (GOFLAGS, GOPROXY, GOCACHE, ...) are part of 'the sources and flags' and are held constant; HOME, TMPDIR, locale, time zone, GOMAXPROCS and unrelated variables are 'environment'",
 		"for -dry -print runs the output bytes are stdout; for writing runs the bytes at the output path; the two kinds are compared among themselves only (different flags)",
 		"only the module root / input path spelling is normalised in stderr before the cross-group comparison")
 	thorough := e.Tier == "thorough"
-	nScen, perGroup := 400, []int{3, 2, 2, 2, 1, 2}
+	nScen, perGroup := 400, []int{3, 2, 2, 2, 1, 2, 2}
 	if thorough {
-		nScen, perGroup = 1500, []int{10, 6, 6, 6, 4, 8}
+		nScen, perGroup = 1500, []int{10, 6, 6, 6, 4, 8, 4}
 	}
 	pool := c13NewEnvPool(e)
 	outside := filepath.Join(e.Work, "outside-cwd")
@@ -387,7 +396,7 @@ func RunC13(e *core.Env) int {
 			for k := 0; k < n; k++ {
 				o := &c13Obs{Group: gi, Idx: k, Env: pool.env(r), Parallel: concurrent, Root: root}
 				if g.Write {
-					o.Root = filepath.Join(e.Work, fmt.Sprintf("c13-%04d-w%d", si, k))
+					o.Root = filepath.Join(e.Work, fmt.Sprintf("c13-%04d-w%d-%d", si, gi, k))
 				}
 				plan = append(plan, o)
 			}
@@ -414,6 +423,28 @@ func RunC13(e *core.Env) int {
 				o.Out, o.OutOK = o.Stdout, true
 			}
 		}
+		// the -log group brackets the scenario: its first process runs before everything else, its last
+		// one after everything else and not earlier than 1.1 s after the first (spacing of the workload
+		// only; no verdict depends on the clock)
+		var early, late *c13Obs
+		var rest []int
+		for _, pi := range order {
+			o := plan[pi]
+			switch {
+			case c13Groups[o.Group].Log && o.Idx == 0:
+				early = o
+			case c13Groups[o.Group].Log && o.Idx == perGroup[o.Group]-1:
+				late = o
+			default:
+				rest = append(rest, pi)
+			}
+		}
+		order = rest
+		var t0 time.Time
+		if early != nil {
+			runOne(early)
+			t0 = time.Now()
+		}
 		if concurrent {
 			var wg sync.WaitGroup
 			sem := make(chan struct{}, 6)
@@ -431,6 +462,12 @@ func RunC13(e *core.Env) int {
 			for _, pi := range order {
 				runOne(plan[pi])
 			}
+		}
+		if late != nil {
+			if d := 1100*time.Millisecond - time.Since(t0); early != nil && d > 0 {
+				time.Sleep(d)
+			}
+			runOne(late)
 		}
 		rep.Eval(len(plan))
 		// the shared directory must be untouched by the dry runs (no output file may appear)
@@ -554,8 +591,8 @@ func RunC13(e *core.Env) int {
 				if len(byGroup[gi]) == 1 && nontrivial(b) {
 					rep.Distinct(srcHash + "|" + g.Name)
 				}
-				if what == "" {
-					continue
+				if what == "" || g.Log {
+					continue // -log is a different flag set: the property does not relate it to the reference group
 				}
 				diff := ""
 				switch what {
